@@ -307,7 +307,7 @@ func execC13Store(c c13Case, x *verifkit.Ctx) (fail *verifkit.Failure) {
 		}
 		return Loaded[int]{Value: id, Cost: rd.Cost, TTL: time.Duration(rd.TTL)}, nil
 	})
-	sharedFlight, failing, mixed := false, false, false
+	sharedFlight, failing, mixed, overExisting := false, false, false, false
 	for ri, rd := range c.Rounds {
 		if rd.Cost > 100 && verifkit.Avoid("C06-loader-oversized") {
 			rd.Cost = 100
@@ -438,9 +438,19 @@ func execC13Store(c c13Case, x *verifkit.Ctx) (fail *verifkit.Failure) {
 				return Loaded[int]{Value: val, Cost: cost, TTL: time.Duration(ttl)}, nil
 			})
 			ref := NewStore[int, int](&StoreOptions[int, int]{MaxSize: 100})
+			overExpired := (ri+rd.Key+rd.Followers)%2 == 1
 			for _, st := range []*Store[int, int]{s2, ref} {
 				st.Set(77, 1, 1, 0)
+				if overExpired {
+					// the key is resident with a deadline that has passed by the time of the load: the load's
+					// store step (like the Set's) finds an existing entry instead of creating one
+					st.Set(rd.Key, 5, 3, time.Second)
+				}
 				st.Wait()
+			}
+			if overExpired {
+				vkAdvance(2_000_000_000)
+				overExisting = true
 			}
 			got, err := l2.Get(context.Background(), rd.Key)
 			okSet := ref.Set(rd.Key, val, cost, time.Duration(ttl))
@@ -455,13 +465,31 @@ func execC13Store(c c13Case, x *verifkit.Ctx) (fail *verifkit.Failure) {
 			re := rsh.hashmap[rd.Key]
 			rsh.mu.RUnlock(tk)
 			l1, l2n, e1, e2 := s2.Len(), ref.Len(), s2.EstimatedSize(), ref.EstimatedSize()
+			// what the policy accounts for the entry and in total (white-box, at quiescence)
+			var pw, rpw int64
+			s2.policyMu.Lock()
+			ws := s2.policy.weightedSize
+			if e != nil {
+				pw = e.policyWeight
+			}
+			s2.policyMu.Unlock()
+			ref.policyMu.Lock()
+			rws := ref.policy.weightedSize
+			if re != nil {
+				rpw = re.policyWeight
+			}
+			ref.policyMu.Unlock()
 			s2.Close()
 			ref.Close()
 			if err != nil || got != val {
 				return verifkit.Failf("load/lone-load-failed", "round %d: lone load returned (%d, %v)", ri, got, err)
 			}
-			if (e != nil) != (re != nil) || (re != nil) != okSet || l1 != l2n || e1 != e2 {
+			stored, rstored := e != nil && e.value == val, re != nil && re.value == val
+			if (e != nil) != (re != nil) || stored != rstored || rstored != okSet || l1 != l2n || e1 != e2 {
 				return verifkit.Failf("load/admission-differs-from-set", "round %d key %d: load with cost %d ttl %d: resident=%v Len=%d EstimatedSize=%d; Set with the same arguments returned %v: resident=%v Len=%d EstimatedSize=%d", ri, rd.Key, cost, ttl, e != nil, l1, e1, okSet, re != nil, l2n, e2)
+			}
+			if ws != rws || pw != rpw {
+				return verifkit.Failf("load/policy-accounting-differs-from-set", "round %d key %d (over an expired resident entry: %v): after the load the policy accounts %d for the entry and %d in total; after Set with the same arguments %d and %d", ri, rd.Key, overExpired, pw, ws, rpw, rws)
 			}
 			if e != nil {
 				if e.weight.Load() != re.weight.Load() || e.expire.Load() != re.expire.Load() {
@@ -470,6 +498,7 @@ func execC13Store(c c13Case, x *verifkit.Ctx) (fail *verifkit.Failure) {
 			}
 		}
 	}
+	x.ClassIf(overExisting, "load-over-expired-resident-entry")
 	x.ClassIf(sharedFlight, "flight-shared")
 	x.ClassIf(failing, "failing-load")
 	x.ClassIf(mixed, "concurrent-set-or-delete")
